@@ -141,10 +141,11 @@ impl RealHs {
                 format!("{}/handshake/error", ctx.prop),
                 format!("{:?} side: process_bytes returned Err({:?}) after {} bytes", self.role, e, self.received),
             )),
-            Ok(HandshakeProcessResult::InProgress { response_bytes }) => self.after_emit(ctx, response_bytes),
+            Ok(HandshakeProcessResult::InProgress { response_bytes, .. }) => self.after_emit(ctx, response_bytes),
             Ok(HandshakeProcessResult::Completed {
                 response_bytes,
                 remaining_bytes,
+                ..
             }) => {
                 if self.received < (1 + 2 * PKT) as u64 {
                     return Err(Violation::new(
@@ -159,6 +160,8 @@ impl RealHs {
                 }
                 self.after_emit(ctx, response_bytes)
             }
+            #[allow(unreachable_patterns)]
+            Ok(_) => Ok(Vec::new()),
         }
     }
 }
@@ -662,11 +665,13 @@ fn drive_c11(ctx: &mut Ctx, hs: &mut Handshake, pre: Vec<u8>, peer_p0p1: &[u8], 
         calls += 1;
         ctx.sched(1, seg_kind as u64, Ctx::bucket_len(n));
         match hs.process_bytes(seg) {
-            Ok(HandshakeProcessResult::InProgress { response_bytes }) => acc.extend_from_slice(&response_bytes),
+            Ok(HandshakeProcessResult::InProgress { response_bytes, .. }) => acc.extend_from_slice(&response_bytes),
             Ok(HandshakeProcessResult::Completed { response_bytes, .. }) => {
                 acc.extend_from_slice(&response_bytes);
                 completed = true;
             }
+            #[allow(unreachable_patterns)]
+            Ok(_) => {}
             Err(e) => {
                 return Err(Violation::new(
                     "C11/handshake/error",
